@@ -192,11 +192,22 @@ func runC12(d c12Desc) []Case {
 	if d.Lib && d.Case.Cfg.Strict && hasNullField([]byte(d.Case.Bytes)) {
 		first.Tags = append(first.Tags, "null-valued-field-in-library-document")
 	}
+	// K11: an empty-kind definition is registered AND some cause carries a non-empty kind that is not
+	// registered (it degrades to a kind-less unknown cause, which the second pass resolves to that definition)
+	regKinds, emptyReg := map[string]bool{}, false
 	for _, ri := range d.Case.Cfg.Reg {
-		if ri >= 0 && ri < len(d.Case.Cfg.Defs) && d.Case.Cfg.Defs[ri].Kind == "" {
-			first.Tags = append(first.Tags, "empty-kind-definition-registered")
-			break
+		if ri >= 0 && ri < len(d.Case.Cfg.Defs) {
+			regKinds[d.Case.Cfg.Defs[ri].Kind] = true
+			if d.Case.Cfg.Defs[ri].Kind == "" {
+				emptyReg = true
+			}
 		}
+	}
+	// (with such a definition registered every kind-less cause - foreign ones too - and every cause of an
+	// unregistered kind ends up as an error of that definition sooner or later: the tag covers the configuration)
+	_ = hasUnregisteredCauseKind
+	if emptyReg {
+		first.Tags = append(first.Tags, "empty-kind-definition-registered")
 	}
 	if docHasValue(d.Case.Doc, "fmaxf32") || docHasValue(d.Case.Doc, "f-maxf32") {
 		first.Tags = append(first.Tags, "float32-maxfloat32-roundtrip")
@@ -208,6 +219,51 @@ func runC12(d c12Desc) []Case {
 		out = append(out, s)
 	}
 	return out
+}
+
+// hasUnregisteredCauseKind: some cause (at any depth) names a non-empty kind the resolver does not know
+func hasUnregisteredCauseKind(c UCase, reg map[string]bool) bool {
+	var walkDoc func(d *UDoc, top bool) bool
+	walkDoc = func(d *UDoc, top bool) bool {
+		if d == nil {
+			return false
+		}
+		if !top && d.Kind != "" && !reg[d.Kind] {
+			return true
+		}
+		for _, k := range d.Causes {
+			if walkDoc(k, false) {
+				return true
+			}
+		}
+		return false
+	}
+	if c.Bytes == "" {
+		return walkDoc(c.Doc, true)
+	}
+	var v any
+	if json.Unmarshal([]byte(c.Bytes), &v) != nil {
+		return false
+	}
+	var walk func(x any, top bool) bool
+	walk = func(x any, top bool) bool {
+		m, ok := x.(map[string]any)
+		if !ok {
+			return false
+		}
+		if k, _ := m["kind"].(string); !top && k != "" && !reg[k] {
+			return true
+		}
+		if cs, ok := m["causes"].([]any); ok {
+			for _, c := range cs {
+				if walk(c, false) {
+					return true
+				}
+			}
+		}
+		return false
+	}
+	return walk(v, true)
 }
 
 // hasSelfMarshalingField: some typed field value of the restored tree writes its own JSON (json.Marshaler /
